@@ -422,9 +422,9 @@ const c03shapes = 8
 
 func c03cases(tier string) int {
 	if tier == "thorough" {
-		return len(delimCfgs) * (c03shapes*c03shapes*c03shapes + 15000)
+		return len(delimCfgs) * (c03shapes*c03shapes*c03shapes + 100000)
 	}
-	return len(delimCfgs) * (c03shapes*c03shapes*c03shapes + 250)
+	return len(delimCfgs) * (c03shapes*c03shapes*c03shapes + 2000)
 }
 
 func c03run(c *fw.Ctx, idx int) {
